@@ -88,7 +88,17 @@ Theorem C07_memory_wire_is_iso : forall m na ns, 1 <= na <= 8 -> 1 <= ns <= 8 ->
 Proof. exact memloc_wire_iso. Qed.
 Print Assumptions C07_memory_wire_is_iso.
 
-(* C07_partial: the builders of link_control, io_control, dynamically_define_did (define), request_file_transfer,
+(* link_control: every control type, every Baudrate(rate, type) the caller can hand over (fixed / specific / identifier / guessed,
+   any integer rate): accepted exactly when ISO has a frame for it, and then that frame (U8 identifier or U24 bit rate) *)
+Theorem C07_link_control : forall st ct b, agrees st (x <- lc_arg b ;; lc_make_client ct x) (iso_link_control ct b).
+Proof. exact link_control_agrees. Qed.
+Print Assumptions C07_link_control.
+Theorem C07_link_control_is_the_call : forall cfg st ct b now s,
+  run_inner cfg st (CLinkControl ct b) now s =
+  single_request cfg st (x <- lc_arg b ;; lc_make_client ct x) (echo1_interpret ct) no_post now s.
+Proof. exact link_control_call. Qed.
+
+(* C07_partial: the builders of io_control, dynamically_define_did (define), request_file_transfer,
    authentication and read_dtc_information are not yet characterised by a Coq theorem against Spec/IsoRequests.v; for
    them the documented domain and the exact frame are checked by the boundary-complete correspondence against the
    independent oracle tools/harness/isospec.py (same statement, evaluated on the implementation and on the model). *)
